@@ -155,4 +155,162 @@ theorem format_is_substitution (w : Char → Bool) (hw : WordClass w) (val : Str
   intro n hn
   simp [varsEnv, hn]
 
+/-! ## The translate tag -/
+
+/-- what the block stands for: content as written, variables by value -/
+def expandPieces (val : Str → Str) : List Piece → Str
+  | [] => []
+  | .content s :: ps => s ++ expandPieces val ps
+  | .var n :: ps => val n ++ expandPieces val ps
+
+theorem formatAux_messageText (w : Char → Bool) (hw : WordClass w) (val : Str → Str) (env : Env) :
+    ∀ (ps : List Piece) (used : Bool), WordNames w ps → (∀ n ∈ varNames ps, env.lookup n = some (val n)) →
+      formatAux env used (messageText ps) = .ok (expandPieces val ps) := by
+  intro ps
+  induction ps with
+  | nil => intro used _ _; simp [messageText, formatAux_nil, expandPieces]
+  | cons p ps ih =>
+    intro used hn henv
+    cases p with
+    | content s =>
+      have := ih used (fun n h => hn n (by simpa [varNames] using h))
+        (fun n h => henv n (by simpa [varNames] using h))
+      simp only [messageText, List.flatMap_cons, pieceText, expandPieces] at this ⊢
+      rw [formatAux_doublePercent, this]; rfl
+    | var n =>
+      have hnn := hn n (by simp [varNames])
+      have hns := word_no_special hw hnn.2
+      have := ih true (fun m h => hn m (by simp [varNames, h])) (fun m h => henv m (by simp [varNames, h]))
+      simp only [messageText, List.flatMap_cons, pieceText, expandPieces] at this ⊢
+      have h2 : '%' :: '(' :: (n ++ [')', 's']) ++ List.flatMap pieceText ps
+          = '%' :: '(' :: (n ++ ')' :: 's' :: List.flatMap pieceText ps) := by simp
+      have hdir := directive_placeholder env used (val n) (List.flatMap pieceText ps)
+        (fun c hc => ⟨(hns c hc).2.1, (hns c hc).2.2⟩) (henv n (by simp [varNames]))
+      rw [h2, formatAux_directive env used _ hdir, this]; rfl
+
+/-- **tag_format_is_expansion_partial** (first sentence of the property, `translate` tag, with
+`trim_messages` off): doubling `%` in the literal text and writing `{{ name }}` as `%(name)s`, then
+formatting, gives back the block — literal text untouched (every percent sign included), variables by
+value.  *Partial*: the variable names must be `\w+` words; `tag_format_counterexample` shows the code fails
+for `{{ a-b }}` (a valid Liquid identifier). -/
+theorem tag_format_is_expansion_partial (w : Char → Bool) (hw : WordClass w) (val : Str → Str) (selfStr : Str)
+    (ps : List Piece) (hn : WordNames w ps) :
+    tagFormatText w val selfStr (messageText ps) = .ok (expandPieces val ps) := by
+  unfold tagFormatText format
+  apply formatAux_messageText w hw val _ ps false hn
+  intro n hmem
+  simp [varsEnv, findVarsTag_messageText w hw ps hn, hmem]
+
+/-- The full-strength statement is false for the code as it is: the block `{{ a-b }}` makes
+`_format_message` raise `KeyError` (known finding `tag|var-not-word|raises-KeyError`). -/
+theorem tag_format_counterexample :
+    ¬ (∀ (val : Str → Str) (ps : List Piece),
+        tagFormatText asciiWord val [] (messageText ps) = .ok (expandPieces val ps)) := by
+  intro h
+  have := h (fun _ => ['V']) [.var ['a', '-', 'b']]
+  have hmsg : messageText [.var ['a', '-', 'b']] = ['%', '(', 'a', '-', 'b', ')', 's'] := by decide
+  have hvars : findVarsTag asciiWord ['%', '(', 'a', '-', 'b', ')', 's'] = [] := by decide
+  have hdir : directive (varsEnv [] (fun _ => ['V']) []) false ['(', 'a', '-', 'b', ')', 's'] = .error .keyError := by
+    rfl
+  rw [hmsg] at this
+  unfold tagFormatText format at this
+  rw [hvars, formatAux_directive_error _ _ _ hdir] at this
+  cases this
+
+/-! ## Plural choice -/
+
+/-- **plural_choice** (second sentence of the property): null translations choose the singular for
+`n = 1` and the plural for every other `n` — `0` included. -/
+theorem null_plural_choice (s p : Str) (n : Int) : nullNgettext s p n = if n = 1 then s else p := rfl
+
+/-- An integer count — zero too — is a count for the `t` filter (`_count` after the fix). -/
+theorem t_count_int (i : Int) : tCount (some (.int i)) = .ok (some i) := rfl
+
+/-- `None`, `True`, `False` and a missing `count` argument are "no count". -/
+theorem t_count_absent : tCount none = .ok none ∧ tCount (some .none) = .ok none ∧
+    ∀ b, tCount (some (.bool b)) = .ok none := ⟨rfl, rfl, fun _ => rfl⟩
+
+/-- **plural_choice_t**: the `t` filter with a plural and a usable count `n` picks exactly what gettext's
+null translations pick, with or without a message context. -/
+theorem plural_choice_t (left plural : Str) (ctx? : Option Str) (count? : Option CountVal) (n : Int)
+    (hn : tCount count? = .ok (some n)) :
+    tChoice left ctx? (some plural) count? = .ok (if n = 1 then left else plural) := by
+  unfold tChoice
+  rw [hn]
+  cases ctx? <;> rfl
+
+/-- without a plural, or without a usable count, the `t` filter keeps the singular message -/
+theorem singular_choice_t (left : Str) (ctx? plural? : Option Str) (count? : Option CountVal)
+    (h : plural? = none ∨ tCount count? = .ok none) :
+    tChoice left ctx? plural? count? = .ok left ∨ ∃ e, tCount count? = .error e := by
+  unfold tChoice
+  cases hc : tCount count? with
+  | error e => exact Or.inr ⟨e, rfl⟩
+  | ok n? =>
+    left
+    rcases h with h | h
+    · subst h; cases n? <;> cases ctx? <;> rfl
+    · rw [hc] at h; cases h; cases plural? <;> cases ctx? <;> rfl
+
+/-- **plural_choice_n**: the `ngettext` / `npgettext` filters with an integer count. -/
+theorem plural_choice_n (left plural : Str) (i : Int) :
+    nChoice left plural (.int i) = .ok (if i = 1 then left else plural) := rfl
+
+/-- **plural_choice_tag**: the tag with a plural block and an integer count (zero too). -/
+theorem plural_choice_tag (singular plural : Str) (i : Int) :
+    tagChoice singular (some plural) (some (.int i)) = .ok (if i = 1 then singular else plural) := rfl
+
+/-- the tag without `count` behaves as `count: 1` -/
+theorem tag_default_count (singular : Str) (plural? : Option Str) :
+    tagChoice singular plural? none = .ok singular := by
+  cases plural? <;> rfl
+
+/-! ## End to end -/
+
+/-- the `t` filter: whatever message is chosen is output by substitution -/
+theorem t_filter_output (w : Char → Bool) (hw : WordClass w) (val : Str → Str) (left : Str)
+    (ctx? plural? : Option Str) (count? : Option CountVal) (m : Str)
+    (h : tChoice left ctx? plural? count? = .ok m) :
+    tFilter w val left ctx? plural? count? = .ok (substitute w val m) := by
+  unfold tFilter bindE
+  rw [h]
+  exact format_is_substitution w hw val [] m
+
+/-- `{{ left | t: plural: p, count: 0 }}` outputs the substituted *plural*. -/
+theorem t_filter_count_zero (w : Char → Bool) (hw : WordClass w) (val : Str → Str) (left plural : Str)
+    (ctx? : Option Str) :
+    tFilter w val left ctx? (some plural) (some (.int 0)) = .ok (substitute w val plural) := by
+  apply t_filter_output w hw
+  rw [plural_choice_t left plural ctx? _ 0 rfl]; rfl
+
+/-- the `ngettext` / `npgettext` filters -/
+theorem n_filter_output (w : Char → Bool) (hw : WordClass w) (val : Str → Str) (left plural : Str) (i : Int) :
+    nFilter w val left plural (.int i) = .ok (substitute w val (if i = 1 then left else plural)) := by
+  unfold nFilter bindE
+  rw [plural_choice_n]
+  exact format_is_substitution w hw val [] _
+
+/-- the `translate` tag (no trimming), integer count -/
+theorem translate_tag_output_partial (w ws : Char → Bool) (hw : WordClass w) (val : Str → Str)
+    (singular plural : List Piece) (i : Int) (hs : WordNames w singular) (hp : WordNames w plural) :
+    translateTag w ws val false singular (some plural) (some (.int i))
+      = .ok (expandPieces val (if i = 1 then singular else plural)) := by
+  unfold translateTag bindE
+  simp only [blockText, Option.map_some, plural_choice_tag, Bool.false_eq_true, if_false]
+  by_cases hi : i = 1
+  · simp only [hi, if_true]; exact tag_format_is_expansion_partial w hw val [] singular hs
+  · simp only [hi, if_false]; exact tag_format_is_expansion_partial w hw val [] plural hp
+
+/-! ## Non-vacuity -/
+
+example : WordClass asciiWord := asciiWord_wordClass
+
+example : WordNames asciiWord [.content ['1', '0', '0', '%'], .var ['y', 'o', 'u']] := by
+  intro n hn
+  simp only [varNames, List.mem_cons, List.not_mem_nil, or_false] at hn
+  subst hn
+  exact ⟨by decide, by decide⟩
+
+example : tCount (some (.int 0)) = .ok (some 0) := rfl
+
 end LiquidVerif.C26
